@@ -87,6 +87,29 @@ def parse_inv(lines):
     return out
 
 
+def byname_problems(lines):
+    """SDAI_Application_instance::getInvAttr( const char * name ) - the look-up by NAME next to the look-up by descriptor: for every
+    inverse attribute of every inspected instance it must return that very descriptor with the same slot"""
+    inv, invn = {}, {}
+    for l in lines:
+        m = re.match(r"INV (\d+) (\w+@\w+) \w\w :(.*)$", l)
+        if m:
+            inv[(m.group(1), m.group(2))] = m.group(3).split()
+        m = re.match(r"INVN (\d+) (\w+@\w+) -> (NULL|(\w+@\w+) :(.*))$", l)
+        if m:
+            invn[(m.group(1), m.group(2))] = (m.group(4), (m.group(5) or "").split())
+    out = []
+    for key, ids in inv.items():
+        if key not in invn:
+            out.append(("machinery", f"no by-name line for inverse attribute {key[1]} of #{key[0]}"))
+            continue
+        ret, nids = invn[key]
+        if ret != key[1] or nids != ids:
+            out.append(("property", f"#{key[0]}: getInvAttr(\"{key[1].split('@')[0]}\") returns {ret or 'no inverse attribute'} holding {nids}; "
+                                    f"the inverse attribute of that name is {key[1]} and holds {ids}"))
+    return out
+
+
 def check_pop(exe, env, model_exe, workdir, tag, s, pop, text, off, orders, budget=True):
     """returns problems [(kind, detail, order)]"""
     path = os.path.join(workdir, f"{tag}.p21")
@@ -125,6 +148,8 @@ def check_pop(exe, env, model_exe, workdir, tag, s, pop, text, off, orders, budg
                 break          # the other histories of this population would wait for the same time-out
             continue
         got = parse_inv(invl)
+        for kind, det in byname_problems(out):
+            problems.append((kind, f"after loadInstance history {o}: " + det, o))
         reqs, keys = [], []
         for i in sorted(set(o)):
             if i not in byid:
@@ -214,8 +239,15 @@ def run(ctx):
             ctx.count(1, key="corpus:" + f)
             if rc != 0 or not ended or sorted(invl) != sorted(r["expect"]):
                 ctx.violation(r.get("key", "corpus:" + f[:-5]), f"history {o}: inverse attributes {invl} (rc={rc}), the real referrers are {r['expect']}", r)
+            for kind, det in byname_problems(out):
+                if kind == "property":
+                    ctx.violation(r.get("key", "corpus:" + f[:-5]) + ":by-name", f"history {o}: " + det, r)
+                else:
+                    ctx.broken.append((f"corpus {f}", det))
     nschemas, npops, nmax = (6, 30, 14) if quick else (40, 100, 14)
     # every 8th schema (the last one in quick) lets referrers be complex instances: the known `complex-referrer` class
+    # 0,1,6 a multiple-inheritance diamond BELOW the inverted entity (rda, rdb, rdz, rdy, rdab, rdq, rdp: a shared subtype before further
+    # subtypes in a subtype list); inverse attribute names are proper prefixes of one another, the longer declared first
     # schema variants by index mod 8: 1,4,7 subtypes of the inverted entity with several supertypes (rel first / second);
     # 2,4 targets inheriting inverses from a grand-/second supertype; 2,6 diamond and double-diamond target hierarchies (inverse declared at the
     # top and in the middle, aggregate and single-valued); 3 complex referrers; 5 a referrer redeclaring the inverted attribute
@@ -225,7 +257,8 @@ def run(ctx):
         ninv = 2 + (i % 3)
         return ninv, ((i + i // 2) % ninv, ["one-up", "second-super", "two-up"][i % 3])
     schemas = [G.schema_c11(ctx.rng, i, ninv=inh_of(i)[0], complex_ref=(i % 8 == 3), mi=(i % 8 in (1, 4, 7)),
-                            deep=(i % 8 in (2, 4)), redecl=(i % 8 == 5), diamond=(i % 8 in (2, 6)), inh=inh_of(i)[1]) for i in range(nschemas)]
+                            deep=(i % 8 in (2, 4)), redecl=(i % 8 == 5), diamond=(i % 8 in (2, 6)), inh=inh_of(i)[1],
+                            rdiamond=(i % 8 in (0, 1, 6))) for i in range(nschemas)]
     t0 = time.time()
     with cf.ThreadPoolExecutor(max_workers=8) as ex:
         exes = list(ex.map(lambda s: C10.build_schema(b, s, ctx.work), schemas))
@@ -246,6 +279,23 @@ def run(ctx):
         if rc != 0 or "END" not in out or set(reg) != set(want):
             ctx.broken.append((f"registry dump of schema {s['name']}", f"rc={rc}: registered entities {sorted(reg)[:8]}.. vs schema {sorted(want)[:8]}.. {err.strip()[-200:]}"))
             continue
+        # does a walk over the registered subtype lists from an inverted entity meet an entity it has queued already BEFORE one it has
+        # not (the shape a once-per-entity iterator must skip over, not stop at)?
+        overs = {iv[2] for e in s["entities"] for iv in e.get("inverses", [])}
+        hit = False
+        for ov in overs:
+            queued, todo = {ov}, [ov]
+            while todo:
+                cur = todo.pop(0)
+                seen_q = False
+                for c in reg.get(cur, ([], []))[1]:
+                    if c in queued:
+                        seen_q = True
+                    else:
+                        hit = hit or seen_q
+                        queued.add(c)
+                        todo.append(c)
+        ctx.hist("subtype walks", "a queued entity before further subtypes" if hit else "no entity met twice before the end of a list")
         for n, (sups, subs) in reg.items():
             inv = sorted(x for x in want if n in want[x])
             if sups != want[n] or sorted(subs) != inv:
